@@ -49,6 +49,24 @@ int main() {
             CASE("callback-from-lambda", ok2, "%d items, closure declines after %d: saw %d", n, stop, (int)seen.size());
         }
     }
+    // closures that keep their state inside themselves (mutable lambda with by-value captures, functor object): the callback must call the
+    // caller's object in place, so that the stop position and the collected state are the caller's
+    for (int n = 0; n <= 6; n++) for (int stop = 1; stop <= 4; stop++) {
+        struct Counting { int seen; int stop; uintptr_t sum; bool operator()(KeyValue kv) { sum += kv._1; return ++seen < stop; } };
+        Counting f = {0, stop, 0};
+        OpaqueCallback<KeyValue> cb = f;
+        int off = 0;
+        for (int i = 0; i < n; i++) { KeyValue kv; kv._0.data = (const uint8_t *)"k"; kv._0.len = 1; kv._1 = 30 + i; off++; if (!cb.func(cb.context, kv)) break; }
+        int want = n < stop ? n : stop;
+        uintptr_t wsum = 0; for (int i = 0; i < want; i++) wsum += 30 + i;
+        CASE("callback-from-stateful-functor", off == want && f.seen == want && f.sum == wsum, "%d items, functor declines at its call number %d: %d offered, functor saw %d", n, stop, off, f.seen);
+        int calls = 0;
+        auto g = [seen = 0, stop, &calls](KeyValue) mutable { calls++; return ++seen < stop; };
+        OpaqueCallback<KeyValue> cb2 = g;
+        int off2 = 0;
+        for (int i = 0; i < n; i++) { KeyValue kv; kv._0.data = (const uint8_t *)"k"; kv._0.len = 1; kv._1 = i; off2++; if (!cb2.func(cb2.context, kv)) break; }
+        CASE("callback-from-mutable-lambda", off2 == want && calls == want, "%d items, lambda declines at its call number %d: %d offered, %d calls", n, stop, off2, calls);
+    }
     {
         CSliceRef<uint8_t> a("hello"); CASE("slice-from-c-string", a.len == 5 && a.data[4] == 'o', "len %lu", (unsigned long)a.len);
         CSliceRef<uint8_t> b("a\0b\0", 4); CASE("slice-from-pointer-and-length", b.len == 4 && b.data[2] == 'b', "len %lu", (unsigned long)b.len);
